@@ -1,5 +1,7 @@
 import Exetera.Lemmas.JoinGeneralFinal
 import Exetera.Lemmas.JoinInnerSpec
+import Exetera.Lemmas.JoinBUFinal
+import Exetera.Lemmas.JoinRUFinal
 /-!
 # C03 — streaming join maps equal the relational join for every chunk size
 
@@ -53,6 +55,34 @@ theorem inner_chunk_unobservable {L R : List Int} (inv : Int) (hL : Sorted L) (h
   obtain ⟨c₂, e₂⟩ := inner_streamed_eq inv h₂ hL hR fuel hfuel
   exact ⟨_, _, e₁, e₂, rfl, rfl⟩
 
+/-! ### Uniqueness-specialised variants (uniqueness = strict sortedness of that side) -/
+
+/-- `…_left_both_unique_streamed`: only the right map is produced; it is the right column of the relational left join. -/
+theorem left_both_unique_streamed_eq {L R : List Int} {cs : Nat} (inv : Int) (hcs : 0 < cs)
+    (hL : L.Pairwise (· < ·)) (hR : R.Pairwise (· < ·)) (fuel : Nat) (hfuel : L.length + R.length ≤ fuel) :
+    ∃ calls, streamed .leftBU fuel cs inv L R = .ok ⟨[], (encodeLeft inv (leftJoin L R)).2, calls⟩ :=
+  Join.left_both_unique_streamed inv hcs hL hR fuel hfuel
+
+/-- `…_inner_both_unique_streamed` -/
+theorem inner_both_unique_streamed_eq {L R : List Int} {cs : Nat} (inv : Int) (hcs : 0 < cs)
+    (hL : L.Pairwise (· < ·)) (hR : R.Pairwise (· < ·)) (fuel : Nat) (hfuel : L.length + R.length ≤ fuel) :
+    ∃ calls, streamed .innerBU fuel cs inv L R =
+      .ok ⟨(encodeInner (innerJoin L R)).1, (encodeInner (innerJoin L R)).2, calls⟩ :=
+  Join.inner_both_unique_streamed_eq inv hcs hL hR fuel hfuel
+
+/-- `…_left_right_unique_streamed`: the left column may contain runs of equal keys (longer than a chunk too). -/
+theorem left_right_unique_streamed_eq {L R : List Int} {cs : Nat} (inv : Int) (hcs : 0 < cs)
+    (hL : Sorted L) (hR : R.Pairwise (· < ·)) (fuel : Nat) (hfuel : L.length + R.length ≤ fuel) :
+    ∃ calls, streamed .leftRU fuel cs inv L R = .ok ⟨[], (encodeLeft inv (leftJoin L R)).2, calls⟩ :=
+  Join.RU.left_right_unique_streamed_eq (inv := inv) hcs hL hR fuel hfuel
+
+/-- `…_inner_right_unique_streamed` -/
+theorem inner_right_unique_streamed_eq {L R : List Int} {cs : Nat} (inv : Int) (hcs : 0 < cs)
+    (hL : Sorted L) (hR : R.Pairwise (· < ·)) (fuel : Nat) (hfuel : L.length + R.length ≤ fuel) :
+    ∃ calls, streamed .innerRU fuel cs inv L R =
+      .ok ⟨(encodeInner (innerJoin L R)).1, (encodeInner (innerJoin L R)).2, calls⟩ :=
+  Join.RU.inner_right_unique_streamed_eq (inv := inv) hcs hL hR fuel hfuel
+
 /-- Every window handed to a kernel is a non-empty slice at the right offset ending at a run boundary — for every
     chunk size ≥ 1 (this is what the widening loop of `get_next_chunk` is for). -/
 theorem trimmed_chunk_run_complete (xs : List Int) (start cs : Nat) (hcs : 0 < cs) (hs : start ≤ xs.length) :
@@ -65,5 +95,9 @@ example : (streamed .left 100 2 (-1) [1, 1, 1, 1, 2, 5] [1, 1, 2, 3]).toOption.m
     some (encodeLeft (-1) (leftJoin [1, 1, 1, 1, 2, 5] [1, 1, 2, 3])) := by decide
 example : (streamed .inner 100 1 0 [1, 1, 1, 1, 2, 5] [1, 1, 2, 3]).toOption.map (fun o => (o.lout, o.rout)) =
     some (encodeInner (innerJoin [1, 1, 1, 1, 2, 5] [1, 1, 2, 3])) := by decide
+
+example : ([1, 3, 4, 9] : List Int).Pairwise (· < ·) ∧ ([0, 3, 9, 10, 11] : List Int).Pairwise (· < ·) := by simp
+example : (streamed .leftBU 9 2 7 [1, 3, 4, 9] [0, 3, 9, 10, 11]).toOption.map (fun o => o.rout) =
+    some (encodeLeft 7 (leftJoin [1, 3, 4, 9] [0, 3, 9, 10, 11])).2 := by decide
 
 end Exetera.Props.C03
